@@ -165,18 +165,25 @@ Proof.
 Qed.
 
 (* any interleaving of Get / BatchGet / SetSnapshotTS — including calls that FAIL after part of their
-   keys were read — on a snapshot with the cache returns what the same program returns without a
-   cache; a failed call leaves the snapshot (cache and version) exactly as it was, so it caches
-   nothing, not even the pairs it did read; nothing is cached while the version is the max timestamp *)
+   keys were read, and calls refused by the transaction safe point [sp] (CheckVisibility) — on a
+   snapshot with the cache returns what the same program returns without a cache; a failed call leaves
+   the snapshot (cache and version) exactly as it was; a read refused by the safe point caches nothing
+   and stays refused on every re-read (Get, and BatchGet of a non-empty key list) whatever ran before on
+   that snapshot object; nothing is cached while the version is the max timestamp *)
 Lemma C05_cache_transparent_proof :
-  forall (rd : N -> key -> option value) (ops : list cop) (ts : N),
-    c_run rd (mkSnap ts None) ops = u_run rd ts ops /\
-    (version (c_final rd (mkSnap ts None) ops) = maxts -> cached (c_final rd (mkSnap ts None) ops) = None) /\
-    (forall s k, c_step rd s (CGetErr k) = (RErr, s)) /\
-    (forall s ks got, c_step rd s (CBatchErr ks got) = (RErr, s)).
+  forall (rd : N -> key -> option value) (sp : N) (ops : list cop) (ts : N),
+    c_run rd sp (mkSnap ts None) ops = u_run rd sp ts ops /\
+    (version (c_final rd sp (mkSnap ts None) ops) = maxts -> cached (c_final rd sp (mkSnap ts None) ops) = None) /\
+    (forall s k, c_step rd sp s (CGetErr k) = (RErr, s)) /\
+    (forall s ks got, c_step rd sp s (CBatchErr ks got) = (RErr, s)) /\
+    (let s := c_final rd sp (mkSnap ts None) ops in
+     version s < sp ->
+     (forall k, c_step rd sp s (CGet k) = (RRefused, s)) /\
+     (forall ks, ks <> [] -> c_step rd sp s (CBatchGet ks) = (RRefused, s))).
 Proof.
-  intros rd ops ts. destruct (cache_transparent rd ops (mkSnap ts None) (fresh_ok rd ts)) as [H1 [_ H2]].
-  split; [exact H1|]. split; [exact H2|]. split; reflexivity.
+  intros rd sp ops ts. destruct (cache_transparent rd sp ops (mkSnap ts None) (fresh_ok rd sp ts)) as [H1 Hok].
+  split; [exact H1|]. split; [exact (proj2 Hok)|]. split; [reflexivity|]. split; [reflexivity|].
+  intros s Hlt. apply refused_stays; [exact Hok|exact Hlt].
 Qed.
 
 (* One snapshot object that remembers which transactions it ignores (resolvedLocks), read by a
